@@ -126,7 +126,8 @@ PROPS["C04"] = {
 
 _NOTIFIER_STREAM = {"name": "notifier", "retry_transient": True, "trivial": r"^(ok|notes=-)$", "hist_keys": [],
                     "scale": {"quick": 2, "thorough": 30}, "seeds": {"quick": 1, "thorough": 4}}
-_NOTIFIER_RULE = ("stream notifier: the real checkAndSendResponseToModules + notifyModule with 1-3 recording modules (threshold 1-4, send-interval 0/1/5/60 s, "
+_NOTIFIER_RULE = ("stream notifier: every evaluation result is delivered on the reply channel a REAL responseLoop reads (nil answers and NOTFOUND among them), which hands it to "
+                  "the real checkAndSendResponseToModules + notifyModule with 1-3 recording modules (threshold 1-4, send-interval 0/1/5/60 s, "
                   "send-once and send-close in all combinations, allow/deny regexps) on status sequences of 8-35 evaluations over 1-3 groups in two clusters "
                   "(statuses OK..REWIND, incidents of several lengths and severities, group records deleted and re-created); the clock is advanced by shifting the "
                   "stored instants back (hook) by k*1000+8 ms so that no interval comparison lands within 8 ms of its boundary; event ids are renamed to "
